@@ -57,23 +57,24 @@ Definition sterm_eqb (a b : sterm) : bool :=
 
 (** ** 1. what the endpoint answers: SPARQL-JSON bindings *)
 
-(** The reader looks at ["type"], ["value"] and ["xml:lang"] only; the
-    ["datatype"] key of a typed literal is never read. *)
-Record binding := { b_type : str; b_value : str; b_lang : option str }.
+(** The reader looks at ["type"], ["value"], ["xml:lang"] and (since the
+    repair of finding C15-F1) ["datatype"]. *)
+Record binding := { b_type : str; b_value : str; b_lang : option str; b_dt : option str }.
 
 Definition bind_node (n : snode) : binding :=
   match n with
-  | NI i => {| b_type := Str "uri"; b_value := i; b_lang := None |}
-  | NB b => {| b_type := Str "bnode"; b_value := b; b_lang := None |}
+  | NI i => {| b_type := Str "uri"; b_value := i; b_lang := None; b_dt := None |}
+  | NB b => {| b_type := Str "bnode"; b_value := b; b_lang := None; b_dt := None |}
   end.
 
 Definition bind_term (t : sterm) : binding :=
   match t with
   | SN n => bind_node n
-  | SLit lex _ lang => {| b_type := Str "literal"; b_value := lex; b_lang := lang |}
+  | SLit lex dt lang => {| b_type := Str "literal"; b_value := lex; b_lang := lang;
+                          b_dt := match lang with Some _ => None | None => dt end |}
   end.
 
-Definition bind_pred (p : str) : binding := {| b_type := Str "uri"; b_value := p; b_lang := None |}.
+Definition bind_pred (p : str) : binding := {| b_type := Str "uri"; b_value := p; b_lang := None; b_dt := None |}.
 
 Inductive qkind := QClasses | QSel | QPO | QSP | QTypes.
 Definition query := (qkind * str)%type.
@@ -110,13 +111,25 @@ Definition class_match (G : sgraph) (tau c : str) : list striple :=
 
 Definition dq : str := Str """".
 
-(** [_add_lang_if_needed]: the value, then the value again between double
-    quotes, then [@lang] (the statement is [result += ...], not [result = ...]) *)
+(** [_add_lang_if_needed].  New shape (C15-F1 repaired): a literal binding
+    becomes an N-Triples-like token: the quoted value, then [@lang] or
+    [^^<datatype>].  Old shape: the value, then the value again between double
+    quotes and [@lang]; the datatype was never read. *)
+Definition literal_types : list str := [Str "literal"; Str "typed-literal"].
 Definition add_lang (b : binding) : str :=
-  match b_lang b with
-  | Some l => (if q_lang_appends_to_value then b_value b else []) ++ dq ++ b_value b ++ dq ++ Str "@" ++ l
-  | None => b_value b
-  end.
+  if q_reader_quotes_literals then
+    if mem_str (b_type b) literal_types then
+      dq ++ b_value b ++ dq ++
+      match b_lang b with
+      | Some l => Str "@" ++ l
+      | None => match b_dt b with Some d => Str "^^<" ++ d ++ Str ">" | None => [] end
+      end
+    else b_value b
+  else
+    match b_lang b with
+    | Some l => (if q_lang_appends_to_value then b_value b else []) ++ dq ++ b_value b ++ dq ++ Str "@" ++ l
+    | None => b_value b
+    end.
 
 (** [_add_corners_if_needed] *)
 Definition add_corners_elem (s ty : str) : str :=
@@ -295,14 +308,14 @@ Definition lterm_eqb (a b : lterm) : bool :=
 Definition ltriple_eqb (a b : ltriple) : bool :=
   lterm_eqb (l_s a) (l_s b) && lterm_eqb (l_p a) (l_p b) && lterm_eqb (l_o a) (l_o b).
 
-(** [_turn_obj_into_rdflib_element].  rdflib keeps the lexical form of
-    [xsd:string] / [rdf:langString] literals; other datatypes (only reachable
-    through a token containing a double quote followed by [^^]) may be normalised: [XUnmodelled]. *)
+(** [_turn_obj_into_rdflib_element].  With [normalize=False] (new shape)
+    rdflib keeps every lexical form; without it only those of [xsd:string] /
+    [rdf:langString] literals are known to be kept ([XUnmodelled] otherwise). *)
 Definition lterm_of_obj (o : obj) : lterm + eerr :=
   match o with
   | ON (Node KIri i) => inl (LU i)
   | ON (Node KBnode b) => inl (LB b)
-  | OL c ty => if str_eqb ty c_STRING_TYPE || str_eqb ty c_LANG_STRING_TYPE then inl (LL c ty)
+  | OL c ty => if lsg_no_normalize || str_eqb ty c_STRING_TYPE || str_eqb ty c_LANG_STRING_TYPE then inl (LL c ty)
                else inr XUnmodelled
   end.
 
@@ -328,11 +341,12 @@ Definition store3 (x : stok3) : ltriple + eerr :=
   end.
 
 (** [_add_URI_corners_if_needed (_add_lang_if_needed x)] on what the local
-    graph holds (no literal of the local graph has a language) *)
+    graph holds: every literal of the local graph has a datatype and no
+    language; new shape: quoted value and [^^<datatype>]; old: the bare value *)
 Definition tok_of_lterm (t : lterm) : str :=
   match t with
   | LU i => Str "<" ++ i ++ Str ">"
-  | LL lex _ => lex
+  | LL lex dt => if lsg_quotes_literals then dq ++ lex ++ dq ++ Str "^^<" ++ dt ++ Str ">" else lex
   | LB b => b
   end.
 Definition tok3_of_l (x : ltriple) : stok3 := (tok_of_lterm (l_s x), tok_of_lterm (l_p x), tok_of_lterm (l_o x)).
@@ -389,9 +403,11 @@ Record cfg := {
   c_cap : Z                  (* instances_cap *)
 }.
 
-(** [Shaper.__init__]: [limit_remote_instances if instances_cap == -1 else instances_cap] *)
+(** [Shaper.__init__]: [limit_remote_instances if instances_cap <= 0 else
+    instances_cap] (old shape: [... if instances_cap == -1 else ...]) *)
 Definition eff_limit (c : cfg) : Z :=
-  if (c_cap c =? limit_rule_no_cap_value)%Z then c_limit c else c_cap c.
+  if limit_rule_no_cap_nonpositive then (if (c_cap c <=? 0)%Z then c_limit c else c_cap c)
+  else if (c_cap c =? limit_rule_no_cap_value)%Z then c_limit c else c_cap c.
 
 Definition wrap (s : str) : str := Str "<" ++ s ++ Str ">".
 
@@ -552,15 +568,31 @@ Definition sel_answers (G : sgraph) (O : oracles) (pass : nat) (tau : str) (limi
 Definition sel_events (limit : Z) (items : list selector) : list event :=
   flat_map (fun s => match sel_query limit s with Some q => [EQ q] | None => [] end) items.
 
-(** [_collect_every_target_node]: a Python [set], then [list(...)] *)
+(** [_collect_every_target_node]: an insertion-ordered [dict] (first
+    occurrences, in answer order), then [list(...)]; old shape: a Python
+    [set], whose iteration order is the oracle [o_set] *)
 Definition collect (G : sgraph) (O : oracles) (selpass setpass : nat) (tau : str) (limit : Z) (items : list selector) : list str :=
-  o_set O setpass (dedup str_eqb (flat_map (sel_answers G O selpass tau limit) items)).
+  let firsts := dedup str_eqb (flat_map (sel_answers G O selpass tau limit) items) in
+  if y_targets_first_occurrence_order then firsts else o_set O setpass firsts.
+
+(** the inverse part does not yield again a statement whose subject is a
+    target (it was yielded with the direct triples of that subject) *)
+Definition keep_inverse (targets : list str) (e : event) : bool :=
+  match e with
+  | EY t => negb (mem_str (nid (ts t)) targets)
+  | _ => true
+  end.
+Definition skip_direct (targets : list str) (b : blk) : blk :=
+  {| k_events := filter (keep_inverse targets) (k_events b); k_raw := k_raw b; k_st := k_st b |}.
 
 (** [yield_triples]: direct triples of the targets, then (inverse_paths) the
     incoming ones; each traversal starts with an empty visited set *)
 Definition yielder_blocks (c : cfg) (G : sgraph) (O : oracles) (pass : nat) (st : lst) (targets : list str) : list blk :=
   let d := traverse c G O pass false st targets in
-  d ++ (if c_inverse c then traverse c G O pass true (last_st st d) targets else []).
+  d ++ (if c_inverse c then
+          let e := traverse c G O pass true (last_st st d) targets in
+          if y_inverse_skips_direct_subjects then map (skip_direct targets) e else e
+        else []).
 
 (** ** 8. the consumers of the yielder *)
 
@@ -708,8 +740,11 @@ Definition class_pass (c : cfg) (G : sgraph) (O : oracles) (pass : nat) (st : ls
   let sel := sel_events (eff_limit c) items in
   let targets := collect G O pass pass (c_tau c) (eff_limit c) items in
   let bs := yielder_blocks c G O pass st targets in
-  (* an empty shape map has no sgraph: [None.yield_p_o_triples_of_target_nodes] *)
-  let evs := match items with [] => [EX XAttr] | _ => cut_at_err (events_of bs) end in
+  (* an empty shape map has no sgraph: no triples (old shape: [None.yield_p_o_triples_of_target_nodes]) *)
+  let evs := match items with
+             | [] => if y_empty_shape_map_guard then [] else [EX XAttr]
+             | _ => cut_at_err (events_of bs)
+             end in
   let failed := existsb is_EX evs in
   match reader (yields evs) with
   | CAll => {| po_events := head ++ sel ++ evs; po_st := last_st st bs; po_ok := negb failed |}
